@@ -104,10 +104,15 @@ pub fn bind_next(
                         return new_loc_err(Error::OutOfListBounds{index: n});
                     }
 
-                    let lhs_val = &mut lock_deref!(items)[n as usize];
+                    // The element is read and written back in separate
+                    // steps so that the list isn't locked while the operation
+                    // is applied (the operands may be this list).
+                    let mut lhs_val = lock_deref!(items)[n as usize].clone();
 
-                    binary_operation_assign(lhs_val, rhs, op)
+                    binary_operation_assign(&mut lhs_val, rhs, op)
                         .context(BinOpAssignListIndexFailed)?;
+
+                    lock_deref!(items)[n as usize] = lhs_val;
 
                     Ok(())
                 },
